@@ -12,7 +12,7 @@ set_option linter.unusedVariables false
 
 theorem subH_true (H : Mat) (stabs qubits : Nat → Bool) (s q : Nat) :
     subH H stabs qubits s q = true ↔ hb H s q = true ∧ qubits q = true ∧ stabs s = true := by
-  unfold subH; simp [and_assoc]
+  unfold subH; simp only [Bool.and_eq_true]; tauto
 
 theorem adjq_true (H : Mat) (stabs qubits : Nat → Bool) (p c q : Nat) :
     adjq H stabs qubits p c q = true ↔
